@@ -82,7 +82,8 @@ def _hostile_name(rng, sbx_root_placeholder="@SBX@") -> tuple[str, list[str]]:
     if r < 0.50:
         return rng.choice(["x" * 250 + ext, "d/" * 60 + "deep" + ext, "y" * 3000 + ext, ("z" * 200 + "/") * 18 + "f" + ext]), ["long"]
     if r < 0.56:
-        return rng.choice([".hidden" + ext, "d/.hidden" + ext, "__MACOSX/res" + ext, "__MACOSX/._res" + ext, "d/__MACOSX/x" + ext, ".DS_Store"]), ["hidden"]
+        return rng.choice([".hidden" + ext, "d/.hidden" + ext, "__MACOSX/res" + ext, "__MACOSX/._res" + ext, ".DS_Store", "./.hidden" + ext, "./._res" + ext,
+                           "./d/.env" + ext, "././.x" + ext]), ["hidden"]
     if r < 0.61:
         return rng.choice(["inner.zip", "d/inner.tar.gz", "x.7z", "y.tgz", "z.TAR", "n.gz", "d/n.bz2", "n.xz", "n.tar.xz", "N.TBZ2"]), ["nested"]
     if r < 0.66:
